@@ -405,8 +405,14 @@ def projection(sensors):
     """Persisted projection of gateway.sensors (plain data, order-insensitive)."""
     out = {}
     for nid, sensor in sensors.items():
+        if not hasattr(sensor, "children") or not hasattr(sensor, "sensor_id"):
+            out[nid] = {"not-a-node": type(sensor).__name__}  # whatever the library put there, it is not a node
+            continue
         children = {}
         for cid, child in sensor.children.items():
+            if not hasattr(child, "values"):
+                children[cid] = ("not-a-child", type(child).__name__, {})
+                continue
             children[cid] = (child.type if child.type is None else int(child.type),
                              child.description, dict(child.values))
         out[nid] = {
@@ -426,6 +432,9 @@ def transient(sensors):
     """Smart-sleep and reboot state per node (plain data)."""
     out = {}
     for nid, sensor in sensors.items():
+        if not hasattr(sensor, "new_state"):
+            out[nid] = {"queue": [], "desired": {}, "reboot": None}
+            continue
         desired = {}
         for cid, child in sensor.new_state.items():
             desired[cid] = {k: v for k, v in child.values.items()}
